@@ -52,7 +52,7 @@ def plan(tier, seed):
     t.append(("helpers", seed))
     # structured partial sets: uniform-letter operators on named graphs (large kernels, few and extreme solutions)
     for i in range(16):
-        t.append(("uniform", (6 if q else 120), seed * 100 + i))
+        t.append(("uniform", (30 if q else 200), seed * 100 + i))
     random.Random(seed).shuffle(t)
     return t
 
